@@ -155,6 +155,15 @@ HAND = [
                  'int f = _Generic(1 ? (void *)0 : cp, const int *: 1, default: 0);\n'
                  'int g = _Generic(1 ? v : cp, const void *: 1, default: 0);\n',
      {'a': 1, 'b': 1, 'c': 1, 'd': 1, 'e': 1, 'f': 1, 'g': 1}, None),
+    # array-to-pointer conversion keeps the qualifiers an array inherits from its containing object or from a typedef
+    ('decay-qual', 'struct S { int a[2]; struct { char name[4]; } in; union { short ua[2]; } u; int m[3][2]; }; const struct S cs; const struct S *pcs; volatile struct S vs; typedef int T[2]; const T ct;\n'
+                   'int a = _Generic(cs.a, const int *: 1, int *: 2, default: 0), b = _Generic(pcs->a, const int *: 1, int *: 2, default: 0), c = _Generic(cs.in.name, const char *: 1, char *: 2, default: 0),\n'
+                   '    d = _Generic(cs.u.ua, const short *: 1, short *: 2, default: 0), e = _Generic(vs.a, volatile int *: 1, int *: 2, default: 0), f = _Generic(ct, const int *: 1, int *: 2, default: 0),\n'
+                   '    g = _Generic(cs.m[1], const int *: 1, int *: 2, default: 0), h = _Generic((const T){1, 2}, const int *: 1, int *: 2, default: 0);\n',
+     {'a': 1, 'b': 1, 'c': 1, 'd': 1, 'e': 1, 'f': 1, 'g': 1, 'h': 1}, None),
+    ('decay-qual-bad1', 'struct S { int a[2]; }; const struct S cs; void f(void) { int *p = cs.a; }\n', 'reject', None),
+    ('decay-qual-bad2', 'typedef int T[2]; const T ct; void g(int *); void f(void) { g(ct); }\n', 'reject', None),
+    ('decay-qual-ok', 'struct S { int a[2]; }; const struct S cs; struct S s; void g(const int *); void f(void) { const int *p = cs.a; int *q = s.a; g(cs.a); g(q); }\nint a = 1;\n', {'a': 1}, None),
     ('cond-ptr-bad', 'int *p; long *lp; int a = sizeof(1 ? p : lp);\n', 'reject', None),
     ('cond-struct', 'struct S { int x; } s, t; struct T { int x; } u; int a = _Generic(1 ? s : t, struct S: 1, default: 0);\n', {'a': 1}, None),
     ('cond-struct-bad', 'struct S { int x; } s; struct T { int x; } u; int a = sizeof(1 ? s : u);\n', 'reject', None),
